@@ -571,8 +571,12 @@ fn parse_dist_header_with_cache<'a>(
     let flags_len = (num_atom_cache_refs as usize) / 2 + 1;
     let (mut input, flags) = take(flags_len)(input)?;
 
+    // The LongAtoms flag is the low bit of the 4-bit field that follows the per-reference
+    // fields: the low nibble of the last flag byte for an even number of references,
+    // the high nibble for an odd number.
     let long_atoms_flag_byte = flags[flags_len - 1];
-    let long_atoms = (long_atoms_flag_byte & 0x01) != 0;
+    let long_atoms_bit = if num_atom_cache_refs % 2 == 0 { 0x01 } else { 0x10 };
+    let long_atoms = (long_atoms_flag_byte & long_atoms_bit) != 0;
 
     for i in 0..num_atom_cache_refs {
         let (new_input, internal_segment_index) = be_u8(input)?;
